@@ -29,7 +29,7 @@ def resolve(qualname):
 
     repo.import_permuta()
     if ":" in qualname:
-        mod, fn = qualname.split(":")
+        mod, fn = qualname.split("@")[0].split(":")
         return getattr(importlib.import_module(mod), fn)
     qualname = qualname.split("@")[0]
     cls, meth = qualname.split(".", 1)
@@ -118,6 +118,11 @@ def domain(sort, quick=True):
         return ms + rng.sample(m2, 60 if quick else 300) + list(D.sampled_mesh(rng, 3, 3 if quick else 20, boundary=False))
     if sort == "none":
         return [None]
+    if sort.startswith("Perm*"):
+        from vlib import domains as D
+
+        k = int(sort[5:])
+        return [tuple(t) for t in itertools.product(D.perms_upto(3), repeat=k)]
     if sort == "Cell":
         return [(x, y) for x in range(0, 4) for y in range(0, 4)]
     if sort == "Seq":
@@ -162,6 +167,14 @@ def concretise(qualname, model):
             args.append(v)
         elif base == "bool":
             args.append(bool(model.get(name)))
+        elif base.startswith("Perm*"):
+            items = []
+            for i in range(int(base[5:])):
+                v = model.get(f"{name}{i}")
+                if not isinstance(v, list) or sorted(v) != list(range(len(v))):
+                    return None
+                items.append(ns["Perm"](v))
+            args.append(tuple(items))
         elif base in ("Mesh", "MeshPatt"):
             p = model.get(name + ".pattern")
             sh = model.get(name + ".shading")
